@@ -1,4 +1,5 @@
 """C07 — decompression bounds (DESIGN.md §4.7). Fidelity of inflate output is not decided."""
+import re
 from ..facts import load, S, strip, nodes, walk, is_lit, lit_name, AnalysisBroken
 from ..report import Result
 from .. import cfg as C
@@ -506,6 +507,7 @@ def run(repo='/repo', tier='quick'):
     res.floor('C07.n', 'hand-overs of the output buffer to the callback', nh, 3)
     c07o(db, res)
     c07p(db, res)
+    c07q(db, res)
     return res
 
 
@@ -661,3 +663,35 @@ def c07p(db, res):
                 reads += 1
     res.check(bad is None and reads > 0, 'C07.p', 'get_token:separators-are-a-set', '%s is read character by character at %d places and never handed to a function' % (sp, reads),
               'get_token hands its separator set `%s` to %s(): as a string it is matched as a whole, so a list written with a single separator character ("gzip,gzip") is one token and the second coding is never undone' % (sp, (bad or {}).get('callee')), (bad or {}).get('loc', f.loc))
+
+
+def c07q(db, res):
+    """When inflate rejects the stream the decompressor climbs a fixed ladder of retries (same coding with header probing, then
+    the other coding) before it falls back to pass-through. Which rung comes next is decided by the decompressor's own state;
+    the only reason to leave the ladder early is that zlib could not be initialised. A rung that is skipped because the
+    payload "does not look like" a wrapped stream (a sniff of the first bytes) turns legal streams - zlib with a smaller
+    window, say - into pass-through: the body arrives undecoded."""
+    res.rule('C07.q', 'the retry ladder is not cut short by a look at the payload: in htp_gzip_decompressor_restart every path that gives up (return 0) while retries are left (restart < 3) passes the failure edge of an inflateInit2, or has tested nothing but the decompressor\'s own state')
+    f = db.get('htp_gzip_decompressor_restart')
+    params = [p['name'] for p in f.params]
+    datap = [p['name'] for p in f.params if 'char' in p['t'] and '*' in p['t']]
+    n = 0
+    bad = None
+    for b, i, st in f.returns() or []:
+        rv = P.ret_value(st)
+        if rv is None or not is_lit(rv, 0):
+            continue
+        for atoms, events, end, seq in P.enum_paths_seq(f, (f.entry, -1), stop=lambda bb, ii, s2, b=b, i=i: (bb, ii) == (b, i), max_paths=20000):
+            if not (end[0] == 'return' and tuple(end[1:3]) == (b, i)):
+                continue
+            facts = [a for a, e in atoms]
+            if not any(a[0].endswith('restart') and a[1] == '<' for a in facts):
+                continue                                   # the ladder is used up
+            n += 1
+            initfail = any(a[0] == 'rc' and a[1] == '!=' for a in facts)
+            sniff = [a for a in facts if any(re.search(r'\b%s\b' % re.escape(dp), a[0]) for dp in datap)]
+            if not initfail and sniff:
+                bad = (st, sniff[-1])
+    res.check(bad is None and n > 0, 'C07.q', 'htp_gzip_decompressor_restart:gives-up-early', 'all %d give-up paths with retries left are zlib initialisation failures or the end of the ladder' % n,
+              'htp_gzip_decompressor_restart gives up with retries left because of a test of the payload (%s): a stream that inflate would have accepted on the next rung is passed through undecoded' % (' '.join(bad[1]) if bad else ''), (bad[0] if bad else st).get('loc', f.loc))
+    res.floor('C07.q', 'give-up paths of the retry ladder', n, 3)
